@@ -1240,7 +1240,7 @@ func CondAlternatives(c Cond, depth int) [][]Cond {
 				continue // this path yields the other value
 			}
 			// the path through pred's own branch
-			path := localConds(pred, b.Idom())
+			path := localConds(pred, b.Idom(), depth+1)
 			if own, ok := EdgeOwnCond(pred, b); ok {
 				path = append(path, normalizeAll([]Cond{own}, depth+1)...)
 			}
@@ -1248,7 +1248,7 @@ func CondAlternatives(c Cond, depth int) [][]Cond {
 			continue
 		}
 		// value edge: e evaluated in (a block dominating) pred, after the earlier operands went the other way
-		path := localConds(pred, b.Idom())
+		path := localConds(pred, b.Idom(), depth+1)
 		for _, sub := range CondAlternatives(Cond{e, c.Truth, c.If}, depth+1) {
 			alts = append(alts, append(append([]Cond{}, path...), sub...))
 		}
@@ -1261,7 +1261,10 @@ func CondAlternatives(c Cond, depth int) [][]Cond {
 
 // localConds lists the branch outcomes that dominate blk but not `above`
 // (the conditions accumulated inside one short-circuit expression).
-func localConds(blk, above *ssa.BasicBlock) []Cond {
+func localConds(blk, above *ssa.BasicBlock, depth int) []Cond {
+	if depth > 5 {
+		return nil
+	}
 	var out []Cond
 	b := blk
 	for b != nil && b != above {
@@ -1271,7 +1274,7 @@ func localConds(blk, above *ssa.BasicBlock) []Cond {
 		}
 		if len(b.Preds) == 1 && b.Preds[0] == d {
 			if own, ok := EdgeOwnCond(d, b); ok {
-				out = append(out, normalizeAll([]Cond{own}, 3)...)
+				out = append(out, normalizeAll([]Cond{own}, depth+1)...)
 			}
 		}
 		if d == above {
@@ -1550,6 +1553,11 @@ func blockReaches(from, to *ssa.BasicBlock) bool {
 	}
 	return false
 }
+
+// BindingOf returns the value a closure's free variable is bound to (the
+// captured variable's cell), or nil if the closure is created at several places
+// with different bindings.
+func BindingOf(fv *ssa.FreeVar) ssa.Value { return bindingOf(fv) }
 
 func bindingOf(fv *ssa.FreeVar) ssa.Value {
 	f := fv.Parent()
@@ -2525,4 +2533,159 @@ func PathConds(path []*ssa.BasicBlock) []Cond {
 		}
 	}
 	return out
+}
+
+// FunctionPathsAvoiding enumerates the acyclic paths from the entry of f to a
+// return that never enter block avoid, and returns the branch outcomes taken
+// along each (normalised).
+func FunctionPathsAvoiding(f *ssa.Function, avoid *ssa.BasicBlock) [][]Cond {
+	var paths [][]Cond
+	if len(f.Blocks) == 0 {
+		return nil
+	}
+	var walk func(b *ssa.BasicBlock, path []*ssa.BasicBlock)
+	walk = func(b *ssa.BasicBlock, path []*ssa.BasicBlock) {
+		if len(paths) > 64 || b == avoid {
+			return
+		}
+		for _, p := range path {
+			if p == b {
+				return
+			}
+		}
+		path = append(append([]*ssa.BasicBlock{}, path...), b)
+		if n := len(b.Instrs); n > 0 {
+			if _, isRet := b.Instrs[n-1].(*ssa.Return); isRet {
+				conds := NormConds(PathConds(path))
+				if !Contradictory(conds) {
+					paths = append(paths, conds)
+				}
+				return
+			}
+		}
+		for _, s := range b.Succs {
+			walk(s, path)
+		}
+	}
+	walk(f.Blocks[0], nil)
+	return paths
+}
+
+// FieldVal is the value one field of a struct result has at one return of the
+// function that produced it: Val, or the zero value when Zero is set.
+type FieldVal struct {
+	Val  ssa.Value
+	Zero bool
+	Ret  *ssa.Return
+}
+
+// StructFieldOrigin resolves a read of field k of a struct that is result i of
+// a call to a function with a body: v is `extract(call,i).k` directly or through
+// a local the result was assigned to. It returns the call, i and k.
+func StructFieldOrigin(v ssa.Value) (call *ssa.Call, res, field int, ok bool) {
+	var base ssa.Value
+	switch x := v.(type) {
+	case *ssa.Field:
+		base, field = x.X, x.Field
+	case *ssa.UnOp:
+		fa, isFA := x.X.(*ssa.FieldAddr)
+		if x.Op != token.MUL || !isFA {
+			return nil, 0, 0, false
+		}
+		al, isAl := fa.X.(*ssa.Alloc)
+		if !isAl {
+			return nil, 0, 0, false
+		}
+		field = fa.Field
+		// the local holds exactly one whole-struct assignment and no field is written
+		for _, ref := range *al.Referrers() {
+			switch r := ref.(type) {
+			case *ssa.Store:
+				if r.Addr != ssa.Value(al) || base != nil {
+					return nil, 0, 0, false
+				}
+				base = r.Val
+			case *ssa.FieldAddr:
+				for _, rr := range *r.Referrers() {
+					if st, isSt := rr.(*ssa.Store); isSt && st.Addr == ssa.Value(r) {
+						return nil, 0, 0, false
+					}
+				}
+			case *ssa.DebugRef, *ssa.UnOp:
+			default:
+				return nil, 0, 0, false
+			}
+		}
+	default:
+		return nil, 0, 0, false
+	}
+	switch b := base.(type) {
+	case *ssa.Extract:
+		if cl, isCall := b.Tuple.(*ssa.Call); isCall {
+			return cl, b.Index, field, true
+		}
+	case *ssa.Call:
+		return b, 0, field, true
+	}
+	return nil, 0, 0, false
+}
+
+// ResultFieldVals lists, for every return of g, the value field k of result i
+// has there. ok is false when some return builds the struct in a way this does
+// not follow (anything but a zero constant or a local with at most one
+// assignment to the field, made before the local is read for the return).
+func ResultFieldVals(g *ssa.Function, i, k int) (out []FieldVal, ok bool) {
+	for _, r := range Returns(g) {
+		if i >= len(r.Results) {
+			return nil, false
+		}
+		v := r.Results[i]
+		if c, isC := v.(*ssa.Const); isC && c.Value == nil {
+			out = append(out, FieldVal{Zero: true, Ret: r})
+			continue
+		}
+		ld, isLd := v.(*ssa.UnOp)
+		if !isLd || ld.Op != token.MUL {
+			return nil, false
+		}
+		al, isAl := ld.X.(*ssa.Alloc)
+		if !isAl {
+			return nil, false
+		}
+		var stores []*ssa.Store
+		for _, ref := range *al.Referrers() {
+			switch x := ref.(type) {
+			case *ssa.FieldAddr:
+				for _, rr := range *x.Referrers() {
+					switch y := rr.(type) {
+					case *ssa.Store:
+						if y.Addr == ssa.Value(x) && x.Field == k {
+							stores = append(stores, y)
+						}
+					case *ssa.UnOp, *ssa.DebugRef:
+					default:
+						if x.Field == k {
+							return nil, false // the field's address escapes
+						}
+					}
+				}
+			case *ssa.Store:
+				if x.Addr == ssa.Value(al) {
+					return nil, false // whole-struct assignment
+				}
+			case *ssa.UnOp, *ssa.DebugRef:
+			default:
+				return nil, false
+			}
+		}
+		switch {
+		case len(stores) == 0:
+			out = append(out, FieldVal{Zero: true, Ret: r})
+		case len(stores) == 1 && InstrDominates(stores[0], ld):
+			out = append(out, FieldVal{Val: stores[0].Val, Ret: r})
+		default:
+			return nil, false
+		}
+	}
+	return out, len(out) > 0
 }
